@@ -1,0 +1,11 @@
+//go:build verif
+
+package provider
+
+import "html/template"
+
+// VerifTemplates exposes the auto-submit templates this provider instance executes for
+// POST-binding replies (login and logout). Verification hook, compiled only with -tags verif.
+func (p *Provider) VerifTemplates() (post, logout *template.Template) {
+	return p.identityProvider.postTemplate, p.identityProvider.logoutTemplate
+}
